@@ -754,6 +754,8 @@ var corpus = []struct {
 	{"a: @x\n", map[string]string{"x.d2": "b: @y\n", "y.d2": "c: @x\n"}},
 	{"a: @index\n", nil},
 	{"d: {shape: class; f0}\nd: {c: {_.A.B <-> b}}\n", nil},
+	{"\"x\\ny\".shape: sql_table\n", nil},
+	{"\"\".shape: text\n", nil},
 	{"Classes: {\nd: {shape: sql_table; f0; f1: int}\nd.c: {\n_._.x -> y\n}\n}\n", nil},
 	{"shape: sql_table\nA: {\n_.z.y -> b\n}\n", nil},
 	{"classes: {a: {class: a}}\nx.class: a\n", nil},
